@@ -190,17 +190,37 @@ def lexicographic_less(fn, label):
     return out
 
 
-def per_char_map(fn, label, expect):
+def per_char_map(fn, label, expect, F=None):
     """ConvertToUpperInPlace-like: every character c of the string is replaced by <expect>(c).
     Recognised shapes: `c = toupper(c)` in a loop over the whole string, or the ASCII range form."""
     out = []
     sv = P(fn, 0)
     loops = [nd for nd in fn.nodes if nd["k"] in ("CXXForRangeStmt", "ForStmt", "WhileStmt")]
+    inst = label + "#per-char"
+    req = "every character of the string is mapped through %s" % expect
+    if not loops and F is not None:
+        # algorithm form: std::transform(s.begin(), s.end(), s.begin(), [](char c) { return K(c); })
+        tr = [nd for nd in fn.nodes if nd["k"] in CALLS and (nd.get("fq") or "") == "std::transform" and len(nd.get("args", [])) == 4]
+        if len(tr) == 1:
+            a = [fn.term(x) for x in tr[0]["args"]]
+            whole = a[0][0] == "call" and a[0][1].split("::")[-1] == "begin" and a[0][2] == sv and a[1][0] == "call" and a[1][1].split("::")[-1] == "end" and a[1][2] == sv
+            inplace = a[2] == a[0]
+            lam = F.functions.get(a[3][1]) if a[3][0] == "lambda" else None
+            if not whole or not inplace:
+                return [bad("R-SIB", inst, fn.loc(tr[0]["id"]), fn.qn, req, "std::transform does not map the whole string onto itself")]
+            if lam is not None and len(lam.params) == 1:
+                rets = [x for x in lam.nodes if x["k"] == "ReturnStmt" and "value" in x]
+                if len(rets) == 1:
+                    rt = lam.term(rets[0]["value"])
+                    pv = ("var", lam.params[0]["n"], lam.params[0]["d"])
+                    if rt[0] == "call" and rt[3] == (pv,):
+                        if rt[1].split("::")[-1] == expect:
+                            return [ok("R-SIB", inst, fn.loc(tr[0]["id"]), fn.qn, req, "transform(s, s, c -> %s(c))" % expect)]
+                        return [bad("R-SIB", inst, fn.loc(tr[0]["id"]), fn.qn, req, "maps through %s" % rt[1])]
+            raise AnalysisBroken("%s: std::transform with an unrecognised per-character function" % fn.qn)
     if len(loops) != 1:
         raise AnalysisBroken("%s: expected one loop over the string" % fn.qn)
     lp = loops[0]
-    inst = label + "#per-char"
-    req = "every character of the string is mapped through %s" % expect
     if lp["k"] == "CXXForRangeStmt":
         if fn.term(lp["range"]) != sv:
             return [bad("R-SIB", inst, fn.loc(lp["id"]), fn.qn, req, "loop ranges over %s" % fmt_term(fn.term(lp["range"])))]
